@@ -7,5 +7,6 @@ fn main() {
     vf_kit::dispatch! {
         "c07" => c07::C07,
         "c32" => c32::C32,
+        "c30fn" => c32::C30Fn,
     }
 }
